@@ -256,7 +256,9 @@ class Ref:
             a = ()
             kw = {}
             for key, parts in args:
-                vals = [p[1] if p[0] == "lit" else self.ev(p[1], env) for p in parts]
+                # literal text of an attribute: a CRLF line end of the source is read as LF (the lexer normalises the
+                # line ends of attribute values; the statement does not distinguish them)
+                vals = [p[1].replace("\r\n", "\n") if p[0] == "lit" else self.ev(p[1], env) for p in parts]
                 kw[key] = functools.reduce(operator.add, vals) if vals else ""
         else:
             a, kw = self.ev("__cap(%s)" % args, dict(env, __cap=_cap))
@@ -267,6 +269,8 @@ class Ref:
                 ret = target(*a, **kw)
                 if form == "cat":
                     ret = "<" + ret + ">"
+                if form == "stmt":
+                    return  # a statement: whatever the def returned is dropped
             self.emit(ret)
             return
         c = RefCaller()
